@@ -7,6 +7,13 @@ HERE = os.path.dirname(os.path.dirname(os.path.abspath(__file__)))
 
 # id -> (category, technique, text, note, design_ref)
 CLAIMED = {
+    "C10": (
+        "exploration",
+        "exhaustive enumeration of parameter expressions x operation slots x bindings x execution routes, and of measure/re-prepare/use/segment histories, run on the real engine against substituted twins and a last-write reference",
+        "Every parameter expression up to size 2 (thorough 3) over {free a, free b, measured q0, 0.5, pi} x {neg, 2*, /2, +, *, sin, cos, exp, sqrt(1+x^2)} in each of 23 operation parameter slots (gates, daggered composites, preparations) under 3 bindings and 4 routes (engine default, user-compiled, optimize, bosonic): the symbolic program's state equals the state of the program with independently substituted numbers (1e-9) and the phase-space reference. All histories up to length 5 (6) over {measure with outcome v1/v2, re-prepare, use the measured value on the other mode, use the never-measured mode's value, segment boundary} for both choices of the measured mode: the value used is the latest outcome (last-write reference), use before measurement raises ParameterError; unbound/unknown names raise; two programs sharing a parameter name; par_regref_deps.",
+        "Outcomes are post-selected values; Gaussian backend's finite-squeezing homodyne model identical in both programs. One recorded finding (name-cached FreeParameter shared between programs).",
+        "DESIGN.md section 4 (C10)",
+    ),
     "C11": (
         "exploration",
         "exhaustive enumeration of circuits over a letter alphabet placed on contiguous, descending, sparse and >= 9-mode index sets, compiled by the real compilers, judged by reference affine maps (hybrid: differential Fock run)",
